@@ -45,6 +45,8 @@ type c09Env struct {
 	replyConns []*net.UDPConn
 	replyAddrs []netip.AddrPort
 	lConn      *net.UDPConn
+
+	l4Broken bool // layer L4 hit a watchdog: stop the layer
 }
 
 func c09NewEnv(m *vk.Monitor) (*c09Env, func(), error) {
@@ -102,6 +104,9 @@ type c09Topology struct {
 	dsts     []netip.AddrPort // realDst choices for clients
 	real     bool             // real transports + direct dialer (else fake forwarders)
 	limit    int              // ConcurrencyLimit (0 = default)
+	// optimistic cache on (dae's default configuration; the other layers run with it off): an expired
+	// entry inside the stale window is served while a background refresh goes upstream
+	optimistic bool
 }
 
 // c09NewController builds a DnsController through the production constructor
@@ -128,7 +133,13 @@ func (e *c09Env) c09NewController(tp c09Topology, lifecycle context.Context) (*D
 	}
 	direct := e.direct
 	real := tp.real
+	staleWindow := 0
+	if tp.optimistic {
+		staleWindow = 60
+	}
 	ctrl, err := NewDnsController(routing, &DnsControllerOption{
+		OptimisticCache:     tp.optimistic,
+		OptimisticCacheTtl:  staleWindow,
 		Log:                 e.log,
 		LifecycleContext:    lifecycle,
 		ConcurrencyLimit:    tp.limit,
